@@ -386,7 +386,9 @@ class MLIRLexer(Lexer[MLIRTokenKind]):
         if current_char == '"':
             return self._lex_string_literal(start_pos)
 
-        if current_char.isnumeric():
+        # Only ASCII digits start a number: `str.isnumeric` also accepts characters
+        # such as '²' or '½', which `int()`/`float()` later reject with a ValueError.
+        if current_char.isascii() and current_char.isdigit():
             return self._lex_number(start_pos)
 
         raise ParseError(
